@@ -43,9 +43,12 @@ func (checker *ChecksumChecker) IsUpToDate(t *ast.Task) (bool, error) {
 		return false, nil
 	}
 
+	// The new checksum is only written to a pending file here. It becomes
+	// the task's checksum once the task has run successfully (see
+	// OnSuccess), so an interrupted run leaves no trace of success.
 	if !checker.dry && oldHash != newHash {
 		_ = os.MkdirAll(filepathext.SmartJoin(checker.tempDir, "checksum"), 0o755)
-		if err = os.WriteFile(checksumFile, []byte(newHash+"\n"), 0o644); err != nil {
+		if err = os.WriteFile(checksumFile+pendingSuffix, []byte(newHash+"\n"), 0o644); err != nil {
 			return false, err
 		}
 	}
@@ -80,7 +83,21 @@ func (checker *ChecksumChecker) OnError(t *ast.Task) error {
 	if len(t.Sources) == 0 {
 		return nil
 	}
+	_ = os.Remove(checker.checksumFilePath(t) + pendingSuffix)
 	return os.Remove(checker.checksumFilePath(t))
+}
+
+// OnSuccess records the run: the checksum computed by the up-to-date check
+// becomes the task's checksum.
+func (checker *ChecksumChecker) OnSuccess(t *ast.Task) error {
+	if len(t.Sources) == 0 || checker.dry {
+		return nil
+	}
+	err := os.Rename(checker.checksumFilePath(t)+pendingSuffix, checker.checksumFilePath(t))
+	if os.IsNotExist(err) {
+		return nil
+	}
+	return err
 }
 
 func (*ChecksumChecker) Kind() string {
